@@ -92,10 +92,11 @@ def pristine(ctx, kind):
 def body_clobber(ch, ctx):
     _, kind, ni = ctx.shard
     force = ch.flag("force")
-    via = ch.choose("input", ("path", "from_string", "features"))
+    via = ch.choose("input", ("path", "from_string", "features") + (("selfdb",) if ni == 0 and kind != "gff3_emptied" else ()))
     ppath, pcanon, pbytes = pristine(ctx, kind)
     wd = ctx.fresh_dir()
-    target = os.path.join(wd, "t.db")
+    # (the file name does not always end in '.db')
+    target = os.path.join(wd, "t.db" if via in ("path", "selfdb") else "t.sqlite3")
     shutil.copyfile(ppath, target)
     if ch.flag("old_database_opened_before"):
         old = gffutils.FeatureDB(target)            # the old database was in use in this process a moment ago
@@ -103,7 +104,17 @@ def body_clobber(ch, ctx):
         dbutil.close_db(old)
     text = "\n".join(NEW[ni]) + "\n"
     from gffutils.feature import feature_from_line
-    if via == "features":
+    if via == "selfdb":
+        # the new input is the old database itself, handed over as a FeatureDB on the very path that is to be (re)built
+        shutil.copyfile(ppath, os.path.join(wd, "copy.db"))
+        _first = [True]
+
+        def data_factory():
+            if _first[0]:
+                _first[0] = False
+                return gffutils.FeatureDB(target)
+            return gffutils.FeatureDB(os.path.join(wd, "copy.db"))
+    elif via == "features":
         def data_factory():
             return [feature_from_line(t) for t in NEW[ni] if not t.startswith("#")]
     else:
@@ -131,8 +142,8 @@ def body_clobber(ch, ctx):
         target = os.path.relpath(real)
     elif pform == "symlink":
         os.makedirs(os.path.join(wd, "links"))
-        target = os.path.join(wd, "links", "t.db")
-        os.symlink(os.path.join("..", "t.db"), target)
+        target = os.path.join(wd, "links", os.path.basename(real))
+        os.symlink(os.path.join("..", os.path.basename(real)), target)
     sig = dict(sig, dbfn=pform)
     raised = None
     cwd0 = os.getcwd()
@@ -178,6 +189,8 @@ def body_clobber(ch, ctx):
         return
     fresh = gffutils.create_db(data_factory(), os.path.join(wd, "fresh.db"), verbose=False, **kw)
     exp_dirs = [t[2:] for t in NEW[ni] if t.startswith("##")] if via != "features" else []
+    if via == "selfdb":
+        exp_dirs = list(fresh.directives)
     ctx.check(db.directives == exp_dirs, "forced-import-has-foreign-directives", dict(sig, input=via), got=db.directives, expected=exp_dirs)
     ctx.check(db.directives == fresh.directives and db.dialect == fresh.dialect
               and [str(f) for f in db.all_features()] == [str(f) for f in fresh.all_features()],
